@@ -7,12 +7,19 @@ One line = one scenario:
   sig     ::= ((pos..) (kw..) <bool varkw> (mandatory..) ((k v)..defaults) (hidden..))
   (runclass <sig> (<class> ...) <index> <op> ...)     -- the flavour is resolved by the model from the class table
   class   ::= (none|<base index> <bool ownTrain> <bool ownState>)
+  (runwrap <sig> (<methods> <flags> <bool isActor>) ((<name> <target>)..) <op> ...)   -- wrap.Actor.type(origin, **mapping):
+                                               the model validates/completes the mapping and resolves the flavour
+  target  ::= (name <n>) | fn | invalid
 answer: (ok <obs> <obs> ...) with one observation per op, or bad-op.
+The script is run by `stepW` of `Model/ActorMachine.lean` on the flavour's machine (`FlavourSpec.toMach`) -- the very
+function `C13_live_refines` is about.
 The user functions are the integer toy functions of harness/props/c13.py.
 -/
 import ForML.Model.Sexp
 import ForML.Model.Actor
 import ForML.Model.ActorClass
+import ForML.Model.ActorMachine
+import ForML.Model.ActorWrap
 open ForML ForML.Actor
 
 def bool? : Sexp → Option Bool
@@ -54,6 +61,7 @@ def errName : Err → String
   | .unexpectedError => "UnexpectedError"
   | .attributeError => "AttributeError"
   | .noObject => "NoObject"
+  | .assertionError => "AssertionError"
 
 def obsErr (e : Err) : Sexp := .list [.atom "err", .atom (errName e)]
 def obsOk (xs : List Sexp) : Sexp := .list (.atom "ok" :: xs)
@@ -67,137 +75,81 @@ def canonParams (m : PMap) : Sexp :=
   let keys := (pkeys m).foldr insertKey []
   .list (keys.map (fun k => .list [Sexp.ofNat k, Sexp.ofInt ((pget m k).getD 0)]))
 
-structure Machine where
-  builder : Option Spec := none
-  regs : List (Option (Obj Int)) := [none, none, none, none]
-  blobs : List (Blob Int) := [none, none, none, none]
-
-def Machine.reg (m : Machine) (r : Nat) : Option (Obj Int) := (m.regs.getD r none)
-def Machine.setReg (m : Machine) (r : Nat) (o : Obj Int) : Machine := { m with regs := m.regs.set r (some o) }
-def Machine.blob (m : Machine) (k : Nat) : Blob Int := (m.blobs.getD k none)
-def Machine.setBlob (m : Machine) (k : Nat) (b : Blob Int) : Machine := { m with blobs := m.blobs.set k b }
-
-/-- one op: new machine + observation; `none` = unparsable -/
-def stepOp (f : Flavour Int) (m : Machine) : Sexp → Option (Machine × Sexp)
-  | .list [.atom "spec", a, kw] => do
-    let a ← a.intList?; let kw ← pmap? kw
-    match mkSpec f a kw with
-    | .ok sp => pure ({ m with builder := some sp }, obsOk [])
-    | .error e => pure (m, obsErr e)
-  | .list [.atom "update", a, kw] => do
-    let a ← a.intList?; let kw ← pmap? kw
-    match m.builder with
-    | none => pure (m, obsErr .noObject)
-    | some sp => match sp.update f a kw with
-      | .ok sp' => pure ({ m with builder := some sp' }, obsOk [])
-      | .error e => pure (m, obsErr e)
-  | .list [.atom "reset", a, kw] => do
-    let a ← a.intList?; let kw ← pmap? kw
-    match m.builder with
-    | none => pure (m, obsErr .noObject)
-    | some sp => match sp.reset f a kw with
-      | .ok sp' => pure ({ m with builder := some sp' }, obsOk [])
-      | .error e => pure (m, obsErr e)
-  | .list [.atom "bpickle"] =>
-    match m.builder with
-    | none => pure (m, obsErr .noObject)
-    | some sp => match sp.repickle f with
-      | .ok sp' => pure ({ m with builder := some sp' }, obsOk [])
-      | .error e => pure (m, obsErr e)
-  | .list [.atom "build", r, a, kw] => do
-    let r ← r.nat?; let a ← a.intList?; let kw ← pmap? kw
-    match m.builder with
-    | none => pure (m, obsErr .noObject)
-    | some sp => match sp.call f a kw with
-      | .ok o => pure (m.setReg r o, obsOk [])
-      | .error e => pure (m, obsErr e)
-  | .list [.atom "train", r, x, y] => do
-    let r ← r.nat?; let x ← x.int?; let y ← y.int?
-    match m.reg r with
-    | none => pure (m, obsErr .noObject)
-    | some o => match f.train o x y with
-      | .ok o' => pure (m.setReg r o', obsOk [])
-      | .error e => pure (m, obsErr e)
-  | .list [.atom "apply", r, x] => do
-    let r ← r.nat?; let x ← x.int?
-    match m.reg r with
-    | none => pure (m, obsErr .noObject)
-    | some o => match f.apply o x with
-      | .ok v => pure (m, obsOk [Sexp.ofInt v])
-      | .error e => pure (m, obsErr e)
-  | .list [.atom "params", r] => do
-    let r ← r.nat?
-    match m.reg r with
-    | none => pure (m, obsErr .noObject)
-    | some o => pure (m, obsOk [canonParams (f.getParams o)])
-  | .list [.atom "setparams", r, kw] => do
-    let r ← r.nat?; let kw ← pmap? kw
-    match m.reg r with
-    | none => pure (m, obsErr .noObject)
-    | some o => match f.setParams o kw with
-      | .ok o' => pure (m.setReg r o', obsOk [])
-      | .error e => pure (m, obsErr e)
-  | .list [.atom "stateful"] => pure (m, obsOk [Sexp.ofBool f.isStateful])
-  | .list [.atom "forge", k, kw] => do
-    let k ← k.nat?; let kw ← pmap? kw
-    pure (m.setBlob k (some (.whole kw none)), obsOk [])
-  | .list [.atom "getstate", r, k] => do
-    let r ← r.nat?; let k ← k.nat?
-    match m.reg r with
-    | none => pure (m, obsErr .noObject)
-    | some o =>
-      let b := f.getState o
-      pure (m.setBlob k b, obsOk [.atom (if b.isSome then "full" else "empty")])
-  | .list [.atom "setstate", r, k] => do
-    let r ← r.nat?; let k ← k.nat?
-    match m.reg r with
-    | none => pure (m, obsErr .noObject)
-    | some o => match f.setState o (m.blob k) with
-      | .ok o' => pure (m.setReg r o', obsOk [])
-      | .error e => pure (m, obsErr e)
-  | .list [.atom "setempty", r] => do
-    let r ← r.nat?
-    match m.reg r with
-    | none => pure (m, obsErr .noObject)
-    | some o => match f.setState o none with
-      | .ok o' => pure (m.setReg r o', obsOk [])
-      | .error e => pure (m, obsErr e)
-  | .list [.atom "preset", r, k] => do
-    let r ← r.nat?; let k ← k.nat?
-    match m.reg r with
-    | none => pure (m, obsErr .noObject)
-    | some o => match presetState f o (m.blob k) with
-      | .ok o' => pure (m.setReg r o', obsOk [])
-      | .error e => pure (m, obsErr e)
-  | .list [.atom "pickle", r] => do
-    let r ← r.nat?
-    match m.reg r with
-    | none => pure (m, obsErr .noObject)
-    | some o => match f.repickle o with
-      | .ok o' => pure (m.setReg r o', obsOk [])
-      | .error e => pure (m, obsErr e)
-  | .list [.atom "fapply", k, x] => do
-    let k ← k.nat?; let x ← x.int?
-    match m.builder with
-    | none => pure (m, obsErr .noObject)
-    | some sp => match functorApply f sp (m.blob k) x with
-      | .ok v => pure (m, obsOk [Sexp.ofInt v])
-      | .error e => pure (m, obsErr e)
-  | .list [.atom "ftrain", k, x, y, j] => do
-    let k ← k.nat?; let x ← x.int?; let y ← y.int?; let j ← j.nat?
-    match m.builder with
-    | none => pure (m, obsErr .noObject)
-    | some sp => match functorTrain f sp (m.blob k) x y with
-      | .ok b => pure (m.setBlob j b, obsOk [.atom (if b.isSome then "full" else "empty")])
-      | .error e => pure (m, obsErr e)
+/-- one operation of the line protocol as an operation of the world machine (`Model/ActorMachine.lean`);
+`none` = unparsable -/
+def op? : Sexp → Option MOp
+  | .list [.atom "spec", a, kw] => do pure (.spec (← a.intList?) (← pmap? kw))
+  | .list [.atom "update", a, kw] => do pure (.update (← a.intList?) (← pmap? kw))
+  | .list [.atom "reset", a, kw] => do pure (.reset (← a.intList?) (← pmap? kw))
+  | .list [.atom "bpickle"] => some .bpickle
+  | .list [.atom "build", r, a, kw] => do pure (.build (← r.nat?) (← a.intList?) (← pmap? kw))
+  | .list [.atom "train", r, x, y] => do pure (.train (← r.nat?) (← x.int?) (← y.int?))
+  | .list [.atom "apply", r, x] => do pure (.apply (← r.nat?) (← x.int?))
+  | .list [.atom "params", r] => do pure (.params (← r.nat?))
+  | .list [.atom "setparams", r, kw] => do pure (.setParams (← r.nat?) (← pmap? kw))
+  | .list [.atom "stateful"] => some .stateful
+  | .list [.atom "forge", k, kw] => do let _ ← pmap? kw; pure (.forge (← k.nat?))
+  | .list [.atom "getstate", r, k] => do pure (.getState (← r.nat?) (← k.nat?))
+  | .list [.atom "setstate", r, k] => do pure (.setState (← r.nat?) (← k.nat?))
+  | .list [.atom "setempty", r] => do pure (.setEmpty (← r.nat?))
+  | .list [.atom "preset", r, k] => do pure (.preset (← r.nat?) (← k.nat?))
+  | .list [.atom "pickle", r] => do pure (.pickle (← r.nat?))
+  | .list [.atom "fapply", k, x] => do pure (.fapply (← k.nat?) (← x.int?))
+  | .list [.atom "ftrain", k, x, y, j] => do pure (.ftrain (← k.nat?) (← x.int?) (← y.int?) (← j.nat?))
   | _ => none
 
-def runOps (f : Flavour Int) : Machine → List Sexp → List Sexp → Option (List Sexp)
-  | _, [], acc => some acc.reverse
-  | m, op :: rest, acc =>
-    match stepOp f m op with
-    | none => none
-    | some (m', obs) => runOps f m' rest (obs :: acc)
+/-- an observation as an S-expression; a `get_params` observation is printed from the dict itself (keys
+ascending), read from the world before the step -/
+def showOut (m : Mach (Obj Int) (Blob Int)) (w : World (Obj Int) (Blob Int)) (op : MOp) : Out → Sexp
+  | .done => obsOk []
+  | .int v => obsOk [Sexp.ofInt v]
+  | .bool b => obsOk [Sexp.ofBool b]
+  | .blob full => obsOk [.atom (if full then "full" else "empty")]
+  | .err e => obsErr e
+  | .params _ =>
+    match op with
+    | .params r =>
+      match w.regs r with
+      | some o => obsOk [canonParams (m.getParams o)]
+      | none => obsErr .noObject
+    | _ => .atom "bad-out"
+
+/-- the whole script through `stepW` of the flavour's machine -/
+def runMach (m : Mach (Obj Int) (Blob Int)) (ops : List Sexp) : Option (List Sexp) := do
+  let ops ← ops.mapM op?
+  let rec go (w : World (Obj Int) (Blob Int)) (ops : List MOp) (acc : List Sexp) : List Sexp :=
+    match ops with
+    | [] => acc.reverse
+    | op :: rest =>
+      let (w', out) := stepW m w op
+      go w' rest (showOut m w op out :: acc)
+  pure (go (World.init m) ops [])
+
+def runOps (fs : FlavourSpec) (ops : List Sexp) : Option (List Sexp) := runMach (fs.toMach toyUser) ops
+
+/-- a definition that `Class.__new__` refused: creating a builder or asking `is_stateful` re-raises, there is
+never a builder or an instance -/
+def runFailed (e : Err) (ops : List Sexp) : Option (List Sexp) := do
+  let ops ← ops.mapM op?
+  pure (ops.map fun
+    | .spec _ _ => obsErr e
+    | .stateful => obsErr e
+    | .forge _ => obsOk []
+    | _ => obsErr .noObject)
+
+def target? : Sexp → Option Target
+  | .atom "fn" => some .fn
+  | .atom "invalid" => some .invalid
+  | .list [.atom "name", n] => do pure (.name (← n.nat?))
+  | _ => none
+
+def mentry? : Sexp → Option (Nat × Target)
+  | .list [k, t] => do pure (← k.nat?, ← target? t)
+  | _ => none
+
+def origin? : Sexp → Option OriginDef
+  | .list [ms, fl, act] => do pure { methods := ← ms.natList?, flags := ← fl.natList?, isActor := ← bool? act }
+  | _ => none
 
 def classDef? : Sexp → Option ClassDef
   | .list [b, t, st] => do
@@ -212,16 +164,27 @@ def stepC13 : Sexp → Sexp
     match sig? sg, cls.mapM classDef?, idx.nat? with
     | some sg, some tbl, some i =>
       if i < tbl.length then
-        match runOps ((classFlavour sg tbl i).toFlavour toyUser) {} ops [] with
+        match runOps (classFlavour sg tbl i) ops with
         | none => .atom "bad-op"
         | some obs => obsOk obs
       else .atom "bad-op"
+    | _, _, _ => .atom "bad-op"
+  | .list (.atom "runwrap" :: sg :: org :: .list mp :: ops) =>
+    match sig? sg, origin? org, mp.mapM mentry? with
+    | some sg, some o, some g =>
+      let res := match wrapDef o g with
+        | .failed e => runFailed e ops
+        | .plain tm => runOps (.wrapped sg tm) ops
+        | .own tm => runMach ((wrappedOwn toyUser sg tm).toMach (some (.value 0))) ops
+      match res with
+      | none => .atom "bad-op"
+      | some obs => obsOk obs
     | _, _, _ => .atom "bad-op"
   | .list (.atom "run" :: fl :: ops) =>
     match flavour? fl with
     | none => .atom "bad-op"
     | some fs =>
-      match runOps (fs.toFlavour toyUser) {} ops [] with
+      match runOps fs ops with
       | none => .atom "bad-op"
       | some obs => obsOk obs
   | _ => .atom "bad-op"
